@@ -50,8 +50,16 @@ def exhaustive_scope():
 def random_scope(rng, n):
     """Random float lists (with duplicates, -0.0/0.0, infinities); the model sees ranks."""
     specials = [0.0, -0.0, float("inf"), float("-inf"), 1.0, 1.0000000000000002, 5e-324, -5e-324]
-    for _ in range(n):
+    for c in range(n):
         k = rng.randrange(0, 40)
+        if c % 3 == 2:
+            # the index's use: epoch timestamps (large magnitude, microsecond spacing), probes right next to stored values
+            base = rng.choice([0.0, 1.7e9, -8.5e9, 8.5e9, 1577836800.0])
+            pool = [base + rng.choice([0, 1e-6, 2e-6, 0.5, 1, 60, -1e-6, 3600]) for _ in range(max(1, k // 2 + 1))]
+            l = sorted(rng.choice(pool) for _ in range(k))
+            x = rng.choice(pool) + rng.choice([0, 0, 1e-6, -1e-6, 0.25, -0.5, 1e-3])
+            yield l, x
+            continue
         pool = [rng.choice(specials) if rng.random() < 0.3 else rng.uniform(-10, 10) for _ in range(max(1, k // 2 + 1))]
         l = sorted(rng.choice(pool) for _ in range(k))
         x = rng.choice(pool + [rng.uniform(-11, 11)])
